@@ -602,4 +602,48 @@ Proof.
   rewrite (Hp b a). apply meq_refl.
 Qed.
 
+(** conditional sums *)
+Lemma when_app : forall (c : bool) (A : mat) s u, (if c then A else m_zero) s u = if c then A s u else k0.
+Proof. intros [|] A s u; reflexivity. Qed.
+
+Lemma m_sum_if_add : forall (X : Type) (l : list X) (p : X -> bool) (f g : X -> mat),
+  meq (m_sum_if l p (fun x => m_add (f x) (g x))) (m_add (m_sum_if l p f) (m_sum_if l p g)).
+Proof.
+  intros X l p f g s u _ _. unfold PresetsSpec.m_sum_if, PresetsSpec.m_sum, PresetsSpec.m_add.
+  rewrite <- ks_add. apply ks_ext. intros x _. rewrite !when_app. unfold PresetsSpec.m_add.
+  destruct (p x); ring.
+Qed.
+Lemma m_sum_if_scale : forall (X : Type) (l : list X) (p : X -> bool) c (f : X -> mat),
+  meq (m_sum_if l p (fun x => m_scale c (f x))) (m_scale c (m_sum_if l p f)).
+Proof.
+  intros X l p c f s u _ _. unfold PresetsSpec.m_sum_if, PresetsSpec.m_sum, PresetsSpec.m_scale.
+  rewrite <- ks_scale_l. apply ks_ext. intros x _. rewrite !when_app. unfold PresetsSpec.m_scale.
+  destruct (p x); ring.
+Qed.
+Lemma m_sum_if_swap_plain : forall (X Y : Type) (lx : list X) (ly : list Y) (p : X -> bool) (f : X -> Y -> mat),
+  meq (m_sum_if lx p (fun x => m_sum ly (fun y => f x y))) (m_sum ly (fun y => m_sum_if lx p (fun x => f x y))).
+Proof.
+  intros X Y lx ly p f s u _ _. unfold PresetsSpec.m_sum_if, PresetsSpec.m_sum.
+  transitivity (ksum lx (fun x => ksum ly (fun y => if p x then f x y s u else k0))).
+  - apply ks_ext. intros x _. rewrite when_app. unfold PresetsSpec.m_sum. destruct (p x); [reflexivity|].
+    symmetry. apply ks_zero.
+  - rewrite ks_swap. apply ks_ext. intros y _. apply ks_ext. intros x _. rewrite when_app. reflexivity.
+Qed.
+Lemma m_sum_if_swap : forall (X Y : Type) (lx : list X) (ly : list Y) (p : X -> bool) (q : Y -> bool)
+  (f : X -> Y -> mat),
+  meq (m_sum_if lx p (fun x => m_sum_if ly q (fun y => f x y)))
+      (m_sum_if ly q (fun y => m_sum_if lx p (fun x => f x y))).
+Proof.
+  intros X Y lx ly p q f. unfold PresetsSpec.m_sum_if at 2 4.
+  eapply meq_trans; [apply m_sum_if_swap_plain|]. apply meq_sum. intros y _.
+  intros s u _ _. unfold PresetsSpec.m_sum_if, PresetsSpec.m_sum. rewrite when_app.
+  destruct (q y).
+  - apply ks_ext. intros x _. reflexivity.
+  - unfold PresetsSpec.m_sum. transitivity (ksum lx (fun _ => k0)); [|apply ks_zero].
+    apply ks_ext. intros x _. rewrite when_app. destruct (p x); reflexivity.
+Qed.
+Lemma m_sum_swap_if : forall (X Y : Type) (lx : list X) (ly : list Y) (q : Y -> bool) (f : X -> Y -> mat),
+  meq (m_sum lx (fun x => m_sum_if ly q (fun y => f x y))) (m_sum_if ly q (fun y => m_sum lx (fun x => f x y))).
+Proof. intros. apply meq_sym. apply m_sum_if_swap_plain. Qed.
+
 End Sums.
